@@ -277,6 +277,27 @@ def run_oracles(ctx, mult=1):
                            how="harness.props.c07.oracle_a_job / oracle_b_job on this case")
 
 
+def fatal_diffs(ctx, res):
+    """a correspondence diff on which the *model* raises ParseFatal/ParseSyntaxException and the real code does not is a
+    concrete failing input, not just a broken tie: the model's fatal outcomes are exactly those the theorems of
+    Props/C07 prove to be propagated (errorstop_*, *_never_swallows_fatal, or_fatal_*), i.e. what the property says must
+    abort the parse."""
+    diffs = res[0]
+    n = 0
+    for d in diffs:
+        c = d["case"]
+        if c["entry"] not in ("parse", "parseAll"):
+            continue
+        if d["model"].startswith(("(fail fatal", "(fail syntax")) and not d["impl"].startswith(("(fail fatal", "(fail syntax")):
+            ctx.fail_input("fatal exception / error stop backtracked over",
+                           {"corr": True, "prog": c["prog"], "root": c["root"], "input": c["input"], "mode": c["mode"], "entry": c["entry"]},
+                           d["model"], d["impl"], theorem="Props/C07 theorems on the model + correspondence",
+                           how="gram.build(prog).parse_string(input): must raise ParseFatalException/ParseSyntaxException")
+            n += 1
+            if n >= 2:
+                break
+
+
 def lr_stream(ctx, mult):
     """error stops inside left-recursive rules under enable_left_recursion:  E <<= E op - T | T  must raise
     ParseSyntaxException exactly where the iterative grammar  T (op - T)*  does - the Forward's growth loop, which falls
@@ -297,7 +318,7 @@ def lr_stream(ctx, mult):
                          entries=[("parse", ()), ("parseAll", ())], modes=[("lr", None), ("lr", 2)]))
         ojobs.append(dict(prog=prog, root=root, it_prog=it, it_root=itr, inputs=inputs, meta=meta))
     if mult == 1:
-        corr_parse.run_jobs(ctx, "model(parseLR)-vs-real:lr-dash", jobs)
+        fatal_diffs(ctx, corr_parse.run_jobs(ctx, "model(parseLR)-vs-real:lr-dash", jobs))
     corr_parse._TIMEOUTS.value = 0
     res = common.pmap(c04.oracle_job, ojobs)
     bad = [m for r_ in res for m in r_[1]]
@@ -325,9 +346,9 @@ def run(ctx):
         prog, root, inputs = gen.gen_case(rng, gen.Cfg(**DASHY), 6)
         jobs.append(dict(prog=prog, root=root, inputs=inputs, entries=[("parse", ()), ("scan", (100, True, False))],
                          modes=[("none",)]))
-    corr_parse.run_jobs(ctx, "model-vs-real:dashy", jobs)
+    fatal_diffs(ctx, corr_parse.run_jobs(ctx, "model-vs-real:dashy", jobs))
     oj = or_fatal_jobs(ctx, ctx.budget(3000, 30000))
-    corr_parse.run_jobs(ctx, "model-vs-real:or-fatal-templates", oj)
+    fatal_diffs(ctx, corr_parse.run_jobs(ctx, "model-vs-real:or-fatal-templates", oj))
     res = common.pmap(oracle_b_job, [dict(prog=j["prog"], root=j["root"], inputs=j["inputs"]) for j in oj])
     bad = [m for r_ in res for m in r_[1]]
     ctx.count_cases("oracle-B:or-fatal-templates", sum(r_[0] for r_ in res), outcomes={"mismatch": len(bad)})
@@ -342,6 +363,13 @@ def run(ctx):
 
 
 def replay(data):
+    if data.get("replay_kind") == "failing-input" and data["case"].get("corr"):
+        c = data["case"]
+        ctx = common.Ctx("C07", "quick", data.get("seed", 0))
+        res = corr_parse.run_jobs(ctx, "replay", [dict(prog=c["prog"], root=c["root"], inputs=[c["input"]],
+                                                       entries=[(c["entry"], ())], modes=[tuple(c["mode"])])])
+        fatal_diffs(ctx, res)
+        return bool(ctx.fail_inputs)
     if data.get("replay_kind") == "failing-input" and "meta" not in data["case"]:
         c = data["case"]
         if c.get("oracle") == "A":
